@@ -233,6 +233,10 @@ def engine_seq(pid, tier, evidence=True):
     twin_inst = [dict(j, id=j["id"] + "-2i", run=run0 + i, instances=2) for i, j in enumerate(jx for jx in jobs[:ntours] if rng.random() < (0.08 if tier == "quick" else 0.3))]
     run0 += len(twin_inst)
     jobs += twin_inst
+    # uploads in flight at the same time (real sockets, pieces interleaved), other requests served in between
+    oj = seqplan.overlap_jobs(rng, 4 if tier == "quick" else 32, run0)
+    run0 += len(oj)
+    jobs += oj
     if pid == "C11":
         # uploads that are refused or break in the middle must never become the served snapshot
         import httpplan
@@ -260,7 +264,7 @@ def engine_seq(pid, tier, evidence=True):
         jobs += gj
     plan = {"threads": NCPU, "needs_clock": True, "jobs": jobs}
     t1 = time.time()
-    summ, files = run_harness_sharded(binary, "seq", plan, wd)
+    summ, files = run_harness_sharded(binary, "seq", plan, wd, env=SOCK_ENV)
     t2 = time.time()
     chunks = split_trace(files, os.path.join(wd, "chunks"))
     viols, total = judge(chunks)
@@ -334,6 +338,10 @@ def engine_seq(pid, tier, evidence=True):
     rc = report(pid, tier, "model_checking", found, coverage, assumptions, t0, notes)
     shutil.rmtree(wd, ignore_errors=True)
     return rc
+
+
+# a socket request that is not answered within this many seconds counts as unanswered (SQLite gives up on a lock after 5 s)
+SOCK_ENV = {"TCSS_SOCK_TIMEOUT": "20"}
 
 
 # ---------------------------------------------------------------- HTTP engines (C14, C15, C16, C20)
@@ -729,6 +737,8 @@ def engine_lock(pid, tier):
     else:
         nh, ln = (60, 90) if tier == "quick" else (400, 160)
         hj = seqplan.history_jobs(rng, nh, ln, run0)
+        # ... and with other clients' uploads IN FLIGHT while a client is served (real sockets, interleaved pieces)
+        hj += seqplan.overlap_jobs(rng, 8 if tier == "quick" else 48, run0 + len(hj))
         for j in hj:
             j["engine"] = "ni"
             if j["nclients"] < 3:
@@ -737,7 +747,7 @@ def engine_lock(pid, tier):
     jobs += hj
     plan = {"threads": 1, "needs_clock": True, "jobs": jobs}
     t1 = time.time()
-    summ, files = run_harness_sharded(binary, "seq", plan, wd)
+    summ, files = run_harness_sharded(binary, "seq", plan, wd, env=SOCK_ENV)
     t2 = time.time()
     viols, total = judge(files, spec="TraceLockstep.tla")
     t3 = time.time()
@@ -1221,6 +1231,7 @@ def engine_crash(pid, tier):
     t0 = time.time()
     rng = random.Random(seed() * 69069 + 17)
     binary = build_harness()
+    server_bin = build_server_bin()
     wd = workdir("crash")
     shm = os.path.join("/dev/shm" if os.path.isdir("/dev/shm") else wd, f"tcss-crash-{os.getpid()}")
     shutil.rmtree(shm, ignore_errors=True)
@@ -1290,11 +1301,25 @@ def engine_crash(pid, tier):
             ks = [k for k in ks if 1 <= k <= ncalls]
             stats[hname]["crash_point_stride"] = stride
             # images are produced, recovered by the real code in fresh processes, and deleted in bounded batches
-            state = dict(run=run, n=0, sample=None)
+            state = dict(run=run, n=0, sample=None, nbin=0, nseen_wal=0)
+            bin_cap, bin_stride = (150, 2) if tier == "quick" else (600, 1)
 
             def recover_batch(images):
                 if not images:
                     return
+                # the images whose write-ahead log holds something are recovered a second time the way a deployment does it:
+                # the real executable starts on (a copy of) the directory first
+                extra = []
+                for im in images:
+                    walf = os.path.join(im["dir"], cp.DBNAME + "-wal")
+                    if os.path.exists(walf) and os.path.getsize(walf) > 0 and state["nbin"] < bin_cap and (state["nseen_wal"] % bin_stride) == 0:
+                        d2 = im["dir"] + "-bin"
+                        shutil.copytree(im["dir"], d2)
+                        extra.append(dict(im, dir=d2, variant=str(im.get("variant")) + "+binary-restart", via_binary=server_bin, listen=f"127.0.0.1:{free_ports(1)[0]}"))
+                        state["nbin"] += 1
+                    if os.path.exists(walf) and os.path.getsize(walf) > 0:
+                        state["nseen_wal"] += 1
+                images = images + extra
                 for im in images:
                     im["run"] = state["run"]
                     state["run"] += 1
@@ -1372,6 +1397,7 @@ def engine_crash(pid, tier):
                     dm.step(byseq[k])
             recover_batch(images)
             stats[hname]["power_loss_images"] = npl
+            stats[hname]["images_also_restarted_through_the_real_executable"] = state["nbin"]
             stats[hname]["max_unsynced_ops"] = maxpend
             stats[hname]["files_seen"] = sorted(set(cp.fname(o["cls"].split(">")[-1]) for o in ops))[:12]
             run = state["run"] + 1
@@ -1517,6 +1543,11 @@ def engine_bytes(pid, tier):
         # 1 MiB +- 1 (own jobs: the payloads are held several times)
         if (backend, driver) in (("sqlite", "http"), ("sqlite", "sock"), ("inmemory", "http")) or tier == "thorough":
             chain_job([(rng.choice(C06_CLASSES), sz, ([524288] if driver != "lib" else None), True) for sz in sizes_big], backend, driver, "big")
+    oj = seqplan.overlap_jobs(rng, 8 if tier == "quick" else 64, run0)
+    for j in oj:
+        j["kind"] = "bytes"
+    run0 += len(oj)
+    jobs += oj
     if tier == "thorough":
         lim = 100 * 1024 * 1024
         for backend in ("sqlite", "inmemory"):
@@ -1526,7 +1557,7 @@ def engine_bytes(pid, tier):
     t1 = time.time()
     huge = [j for j in jobs if j["id"].startswith("huge")]
     rest = [j for j in jobs if not j["id"].startswith("huge")]
-    summ, files = run_harness_sharded(binary, "seq", dict(plan, jobs=rest), wd)
+    summ, files = run_harness_sharded(binary, "seq", dict(plan, jobs=rest), wd, env=SOCK_ENV)
     if huge:
         wd2 = os.path.join(wd, "huge")
         os.makedirs(wd2)
